@@ -46,6 +46,7 @@ const (
 	AddrFnd         // foundation key (key 3) v1 standard address
 	AddrFndV2       // foundation key (key 3) v2 pk address
 	AddrNoSig       // v1 unlock conditions requiring ZERO signatures (spendable by anyone, v1 or v2 legacy policy)
+	AddrThresh      // v2 threshold policy 2-of-3: pk(key 0), pk(key 1), opaque(above(2^40))
 	numAddr
 )
 
@@ -70,8 +71,15 @@ func (k *Keys) Addr(class int) types.Address {
 		return types.StandardAddress(k.Pub[3])
 	case AddrNoSig:
 		return types.UnlockConditions{}.UnlockHash()
+	case AddrThresh:
+		return k.ThreshPolicy().Address()
 	}
 	panic("bad address class")
+}
+
+// ThreshPolicy is the 2-of-3 threshold policy of class AddrThresh, as its spender presents it (third branch opaque).
+func (k *Keys) ThreshPolicy() types.SpendPolicy {
+	return types.PolicyThreshold(2, []types.SpendPolicy{types.PolicyPublicKey(k.Pub[0]), types.PolicyPublicKey(k.Pub[1]), types.PolicyOpaque(types.PolicyAbove(1 << 40))})
 }
 
 // ClassOf returns the class of an address, or -1.
